@@ -174,6 +174,10 @@ func init() {
 		}
 		return nil
 	}
+	intrinsics[ndPkg+"LoopBound"] = func(e *Exec, _ *frame, args []Value) Value {
+		e.path.loopBound = int(args[0].(int64))
+		return nil
+	}
 	intrinsics[ndPkg+"Thorough"] = func(e *Exec, _ *frame, args []Value) Value { return e.w.tier == "thorough" }
 	intrinsics[ndPkg+"TempRoot"] = func(e *Exec, _ *frame, args []Value) Value { return mkStr("/vfs/r1/r2") }
 	intrinsics[ndPkg+"Symbolic"] = func(e *Exec, _ *frame, args []Value) Value { return true }
